@@ -7,7 +7,7 @@ import random as _pyrandom
 import numpy as np
 
 from .core import InjectedAbort, FaithfulRandom
-from .models import (gen_mdp_spec, gen_graph_spec, gen_pomdp_spec, MDPView, GraphView, POMDPView,
+from .models import (nested_variant_spec, gen_mdp_spec, gen_graph_spec, gen_pomdp_spec, MDPView, GraphView, POMDPView,
                      make_mdp, make_graph_mdp, make_pomdp, dyadic)
 from .ctx import canon
 
@@ -175,7 +175,8 @@ def other_problem(sc):
 class Env:
     """What a scenario execution may be perturbed by."""
 
-    def __init__(self, ctx=None, rng_factory=None, reuse=False, warm=False, listener_cb=None):
+    def __init__(self, ctx=None, rng_factory=None, reuse=False, warm=False, listener_cb=None, share=False):
+        self.share = share        # option / policy objects are first used on ANOTHER model with the same keys (two live users of one object)
         self.ctx = ctx
         self.rng_factory = rng_factory or (lambda seed: _pyrandom.Random(seed))
         self.reuse = reuse
@@ -382,6 +383,15 @@ def run_component(sc, problem, algo, env):
             from msdm.algorithms.valueiteration import ValueIteration
             o = PlanToSubgoalOption(mdp=problem, initial_states=[x for x in states if x not in term] or states[:1], subgoals=sorted(term, key=lambda x: str(canon(x))),
                                     planner=ValueIteration(max_iterations=2000), include_mdp_absorbing_states=True, max_steps=p['max_steps'])
+        if getattr(env, 'share', False) and sc['problem'].get('type') == 'mdp':
+            # the option object is shared with a second semi-MDP over another model (same keys), which uses it first
+            other = make_mdp(MDPView(nested_variant_spec(sc['problem']['spec'], 3)), None)
+            first = sm.SemiMarkovDecisionProcess(mdp=other, options=[o], n_option_simulations=2, seed=seed + 1)
+            for s0 in states[:2]:
+                try:
+                    first.next_state_transit_time_reward_dist(s0, o)
+                except Exception:
+                    pass
         smdp = algo if algo is not None else sm.SemiMarkovDecisionProcess(mdp=problem, options=[o], n_option_simulations=p['nsim'], seed=seed)
         out = []
         from msdm.core.exceptions import AlgorithmException
@@ -420,6 +430,7 @@ def run_component(sc, problem, algo, env):
         return dict(ops=out, must_equal=pairs)
     if comp == 'rollout_mdp':
         pol = _rand_policy(problem, p['pseed'], p.get('tabular', False), p.get('mix', False))
+        _share_policy(sc, pol, env, seed)
         tr = pol.run_on(problem, max_steps=p['cap'], rng=env.rng_factory(seed))
         tr2 = pol.run_on(problem, max_steps=p['cap'], rng=env.rng_factory(seed))
         a, b = [canon(dict(st)) for st in tr.steps], [canon(dict(st)) for st in tr2.steps]
@@ -427,6 +438,7 @@ def run_component(sc, problem, algo, env):
     if comp == 'evaluate_mdp':
         pol = _rand_policy(problem, p['pseed'], p.get('tabular', False), p.get('mix', False))
         from msdm.core.mdp.policy import Policy as _P
+        _share_policy(sc, pol, env, seed)
         ev = _P.evaluate_on(pol, problem, n_simulations=p['nsim'], max_steps=p['cap'], rng=env.rng_factory(seed))
         return dict(initial_value=float(ev.initial_value), state_value=canon({s: float(v) for s, v in ev.state_value.items()}),
                     occupancy=canon({s: float(v) for s, v in ev.state_occupancy.items()}))
@@ -440,6 +452,19 @@ def run_component(sc, problem, algo, env):
         b = tab(pol.run_on(problem, initial_state=start, max_steps=p['cap'], rng=env.rng_factory(seed)))
         return dict(steps=a, must_equal=[["rollout_pomdp: same policy and model objects rolled out twice with generators seeded alike", a, b]])
     raise ValueError(comp)
+
+
+def _share_policy(sc, pol, env, seed):
+    """(env.share) the policy object is first rolled out and evaluated on another model with the same keys"""
+    if not getattr(env, 'share', False) or sc['problem'].get('type') != 'mdp':
+        return
+    from msdm.core.mdp.policy import Policy as _P
+    other = make_mdp(MDPView(nested_variant_spec(sc['problem']['spec'], 3)), None)
+    try:
+        pol.run_on(other, max_steps=3, rng=_pyrandom.Random(seed + 1))
+        _P.evaluate_on(pol, other, n_simulations=2, max_steps=3, rng=_pyrandom.Random(seed + 2))
+    except Exception:
+        pass
 
 
 def _agent(ag):
